@@ -12,11 +12,11 @@ TB = ("Trusted base: Coq 8.16.1 kernel (full .vo build, no native_compute), no a
 
 # id -> (claimed?, level text, note on what is partial/assumed, design section)
 P = {
- "C01": ("Theorems for all byte strings and all crypto behaviours: an accepted input verifies under the key it carries over exactly the reported seq/pairs; signature framing (64 bytes, ranges, low-S) and high-S twin rejection are proved arithmetic facts; alteration_accepted_only_as_forgery: a second, different accepted input carries its own verifying (key, content, signature). Tied to the code by the correspondence run (valid records signed by the libraries directly, bit flips, tampers, text form, 5 key types) plus a monitor that re-verifies every accepted record with the crypto library directly.",
+ "C01": ("Theorems for all byte strings and all crypto behaviours: an accepted input verifies under the key it carries over exactly the reported seq/pairs; signature framing (64 bytes, ranges, low-S) and high-S twin rejection are proved arithmetic facts; alteration_accepted_only_as_forgery: a second, different accepted input carries its own verifying (key, content, signature); only_the_original_is_accepted: under the unforgeability hypothesis every accepted input with the same public key is the original record byte for byte; the same guarantees for the text and JSON entry points. Tied to the code by the correspondence run (valid records signed by the libraries directly, bit flips, tampers, text form, 5 key types) plus a monitor that re-verifies every accepted record with the crypto library directly.",
          "Unforgeability of ECDSA/Ed25519 is the named residual assumption: 'every alteration is rejected' is the contrapositive of decode_authentic, not a cryptographic theorem."),
  "C02": ("decode_iff_wellformed: the model decoder accepts item++rest iff item satisfies the declarative grammar WellFormed (no parsing in the spec); both directions proved for all byte strings and crypto behaviours; decode_total: every other input yields an error value. Correspondence: verdicts on valid records and re-signed structural mutants under 5 key types.",
          "65-byte SEC1 keys are inside the secp_pk oracle; inner bytes of list values are unconstrained, as the property says."),
- "C03": ("No-panic theorems: in the model every expect/unwrap/index of the Rust is a Panic outcome; decode, decode_vec, from_str, from_json, enr_to_public never panic for any input; step_no_panic and build_no_panic hold for ALL records, arguments and signers; accessors on a Valid record are total; with C05 (reachable -> Valid) this covers every record handed out. Correspondence: catch_unwind + timeouts over unstructured inputs, tampers, histories with every accessor after every step.",
+ "C03": ("No-panic theorems: in the model every expect/unwrap/index of the Rust is a Panic outcome; decode, decode_vec, from_str, from_json, enr_to_public never panic for any input; step_no_panic and build_no_panic hold for ALL records, arguments and signers; accessors on a Valid record are total; with C05 (reachable -> Valid) this covers every record handed out; the guards of the Rust's slice/expect sites are proved to hold whenever reached (slice_in_bounds, node_id_len, display_slices_in_bounds). Correspondence: catch_unwind + timeouts over unstructured inputs, tampers, histories with every accessor after every step.",
          "Partial by nature: panics inside dependencies on inputs the model does not send them, allocation failure, aborts and stack exhaustion are runtime behaviour a Gallina model cannot exhibit; those are sampled only."),
  "C04": ("decode_canonical (consumed bytes = re-encoding), decode_injective, decode_reports_parse, valid_roundtrip (bytes, text with and without prefix, JSON) and reachable_roundtrip along every history, proved for all inputs. Correspondence: re-encoding vs consumed bytes, and bytes/text/JSON round trip of every record seen in histories.",
          "JSON escapes are serde_json's (model covers plain string literals)."),
@@ -24,25 +24,25 @@ P = {
          "GoodSigner (the signer returns signatures its public key verifies) and KeyOk are hypotheses, checked at run time on every signature produced."),
  "C06": ("step_err_unchanged for every record, operation, signer (failing, lying, any length) and crypto behaviour; signer_fault; err_still_valid. Correspondence: observation before/after every failing step, signing faults injected at each signing call.",
          ""),
- "C07": ("step_seq (+1 / exact set), no_wrap, finish_at_max, seq_codec for all 64-bit values, seq range of decoded records. Correspondence: seq before/after each step from boundary starting values.",
+ "C07": ("step_seq (+1 / exact set), no_wrap, finish_at_max, step_at_max_reports_seq (the exact error and unchanged record at 2^64-1), seq_codec for all 64-bit values, seq range of decoded records. Correspondence: seq before/after each step from boundary starting values.",
          ""),
- "C08": ("Refinement to a sorted-map specification: per operation the pairs after a successful step are spec_after of the pairs before (touched keys get the canonical encodings, everything else untouched), return values are the previous values, StrictSorted preserved; build_refines; error kinds lie in the admissible set. Correspondence: pairs, return values and error kinds over histories.",
+ "C08": ("Refinement to a sorted-map specification: per operation the pairs after a successful step are spec_after of the pairs before (touched keys get the canonical encodings, everything else untouched), return values are the previous values, StrictSorted preserved; build_refines; step_err_exact_cause: each error kind names the cause that holds of this very call (the message the signer refused, the candidate that is too large); set_public_key to the own key succeeds on every Valid record under the generic update conditions. Correspondence: pairs, return values and error kinds over histories.",
          ""),
- "C09": ("size is the encoding length by definition; decode_size, step_size, build_size (<= 300 for any signature length); update_refused_iff for 64-byte schemes; builder refusal bounds. Correspondence: size sweep 280..320 x seq growth points x mutators.",
+ "C09": ("size is the encoding length by definition; decode_size, step_size, build_size (<= 300 for any signature length); step_refused_iff for equal-length signatures, set_seq_refused_iff for any; builder refusal bounds. Correspondence: size sweep 280..320 x seq growth points x mutators.",
          ""),
- "C10": ("decode_nid, step_nid, build_nid, step_rekeys, nid_function_of_key: node id = keccak256 (uncompressed key) with keccak256 concrete in Gallina. Correspondence: node id vs independent derivation, after build/decode/every step.",
+ "C10": ("decode_nid, step_nid, build_nid, step_rekeys, nid_function_of_key: node id = keccak256 (uncompressed key) with keccak256 concrete in Gallina (standard vectors evaluated by the kernel). Correspondence: node id vs independent derivation, after build/decode/every step.",
          "The uncompressed form of a SEC1 key comes from the secp_pk oracle (library called directly), checked against both libraries."),
- "C11": ("decode_k256_libsecp, decode_kt_ext, decode_comb_of_k256 / decode_comb_of_ed / decode_comb_split (CombinedKey accepts exactly what the secp256k1 types accept plus what the ed25519 type accepts when no valid secp256k1 entry is present, same record), isolation (decode_needs_own_key), combined_precedence. Correspondence: all inputs under all key types, pairwise comparison of back-ends.",
+ "C11": ("decode_k256_libsecp, decode_kt_ext, decode_comb_of_k256 / decode_comb_of_ed / decode_comb_split (CombinedKey accepts exactly what the secp256k1 types accept plus what the ed25519 type accepts when no valid secp256k1 entry is present, same record), isolation (decode_needs_own_key), combined_precedence; validity and acceptance transfer between the key types (valid_k256_iff_libsecp, secp_record_accepted_by_all, ed_record_accepted_by_comb, built_by_k256_accepted_by_all, updated_by_comb_accepted). Correspondence: all inputs under all key types, pairwise comparison of back-ends.",
          "That k256 and libsecp256k1 implement the same curve equation is a fact about two foreign libraries: sampled, not proved."),
- "C12": ("to_text_def, b64_roundtrip, b64_canonical (unique text per byte string), from_str_strict, from_str_accepts, from_str_rejects_trailing. Correspondence: every edit class of the property on valid texts.",
+ "C12": ("to_text_def, b64_roundtrip, b64_canonical (unique text per byte string), from_str_strict, from_json_strict, from_str_accepts, from_str_rejects_trailing. Correspondence: every edit class of the property on valid texts.",
          ""),
  "C13": ("decode_prefix_local for every complete item and suffix, decode_ok_complete, decode_advance, decode_vec of back-to-back records. Correspondence: suffixes 0..1000 bytes, streams and lists of 1..8 records.",
          ""),
- "C14": ("Accessor iff-theorems for all values (ports for all p by arithmetic, not enumeration): tcp4/udp4/tcp6/udp6, ip4/ip6, id, sockets = product, reachability = disjunction, setters store canonical encodings and read back. Correspondence: typed getters vs raw pairs, port sweeps, 64 presence combinations.",
+ "C14": ("Accessor iff-theorems for all values (ports for all p by arithmetic, not enumeration): tcp4/udp4/tcp6/udp6, ip4/ip6, id, sockets = product, reachability = disjunction, setters and builder methods store canonical encodings and read back (no premise on the result); side-condition-free characterisation of every accessor by the stored bytes (x_iff_prefix). Correspondence: typed getters vs raw pairs, port sweeps, 64 presence combinations.",
          "Lossy UTF-8 conversion of non-UTF-8 client/id strings is outside the model (compared only as Some/None)."),
  "C15": ("rec_eqb is an equivalence, equal records hash equally, differs on seq/nid/sig; compare_content iff same seq and pairs (payload injectivity). Correspondence: ==, hash equality, compare_content over clones, re-decodings, re-signings, edits, re-keyings.",
          "'Equal records carry identical pairs' reduces to keccak/signature collisions, which are not claimed impossible."),
- "C16": ("parse_iff, ser/deser/hex round trips, deser_iff, debug/display definitions for all byte strings. Correspondence: all functions on slices 0..64 and strings 0..70.", ""),
+ "C16": ("parse_iff, ser/deser/hex round trips, deser_iff, debug/display definitions, the literal shape 0x + 64 digits in 0-9a-f, for all byte strings. Correspondence: all functions on slices 0..64 and strings 0..70.", ""),
  "C17": ("import_secp_iff (0 < x < n), export = input, buffer wiped, ed25519 length rule. Correspondence: boundary and random secrets; public key vs independent derivation by libsecp256k1 / dalek.",
          "Public-key derivation and 'signed records verify' are library facts: sampled."),
 }
